@@ -1,6 +1,7 @@
 import Ruint.Lemmas.RedcGen
 import Ruint.Gen.RedcFacts
 import Ruint.Lemmas.GenRedcLoops
+import Ruint.Lemmas.GenRedcSquare
 
 /-!
 # C11 — Montgomery multiplication and squaring compute `a·b·R⁻¹ mod m`
@@ -158,7 +159,7 @@ theorem word_primitives_match_source (l r a c : ℕ) (f : Bool)
 
 /-! ## Whole-function tie to the source (G)
 
-`Ruint.Gen.mul_redc`, `Ruint.Gen.reduce1_carry` and `Ruint.Gen.redc_sub` are regenerated from
+`Ruint.Gen.mul_redc`, `Ruint.Gen.square_redc`, `Ruint.Gen.reduce1_carry` and `Ruint.Gen.redc_sub` are regenerated from
 `src/algorithms/mul_redc.rs` by `tools/rs2lean.py` on every run — the complete functions: both nested `for`
 loops of the CIOS multiplication with the indexed reads and writes of `result`, the reduction factor computed
 at `i == 0`, the shifted store `result[i - 1] = value`, the "add carries" step with the threshold arm, the
@@ -185,6 +186,16 @@ theorem gen_mul_redc_eq (a b md : List ℕ) (inv : ℕ) (hN : 0 < md.length) (hN
     mulRedc W keepMul inv a b md
       = if (mulRedcCore W keepMul inv a b md).2 then some (Ruint.Gen.mul_redc fuel md.length a b md inv) else none := by
   rw [Ruint.GenRedcLoops.mul_redc_eq a b md inv hN hN64 ha hb fuel hf]
+  rfl
+
+/-- **`square_redc::<N>` as generated from the source** (outer loop, the doubled-product row loop
+    `for j in (i + 1)..N` with its two-level carry, the reduction row loop `for j in 1..N` with the shifted store,
+    both threshold arms, `reduce1_carry`) returns exactly what the model returns: every `N ≥ 1`, every operand. -/
+theorem gen_square_redc_eq (a md : List ℕ) (inv : ℕ) (hN : 0 < md.length) (hN64 : md.length < 2 ^ 64)
+    (ha : a.length = md.length) (fuel : ℕ) (hf : md.length < fuel) :
+    squareRedc W keepSq inv a md
+      = if (squareRedcCore W keepSq inv a md).2 then some (Ruint.Gen.square_redc fuel md.length a md inv) else none := by
+  rw [Ruint.GenRedcSquare.square_redc_eq a md inv hN hN64 ha fuel hf]
   rfl
 
 /-! Non-vacuity: concrete instances evaluated by the kernel. `m = 2^128 − 159` (top limb `2^64 − 1`: the
